@@ -22,7 +22,7 @@ ASSUMPTIONS = [
 
 CATS = ("f", "g", "h", "C(k)", "T(f, 'a')", "C(g, Treatment('g1'))", "T(h, 'mid')")
 NUMS = ("x", "z")
-GROUP_FACTORS = ("g", "h", "C(k)", (":", ("var", "g"), ("var", "h")), (":", ("var", "h"), ("var", "f")),
+GROUP_FACTORS = ("g", "h", "C(k)", "k", (":", ("var", "g"), ("var", "h")), (":", ("var", "h"), ("var", "f")),
                  ("+", ("var", "g"), ("var", "h")), ("/", ("var", "g"), ("var", "C(k)")), ("+", ("var", "h"), ("var", "C(k)")))
 
 
@@ -127,6 +127,19 @@ def judge(ctx, case):
     for a in atoms:
         if not rc.is_cat(a):
             continue
+        if a == "k":
+            # a plain integer column is a factor only where it groups: its levels are in numerical order there
+            try:
+                with core.Guard():
+                    d0 = design_matrices("y ~ (1 | k)", frame)
+                groups = [str(g_) for g_ in d0.group.terms["1|k"].groups]
+            except Exception as e:  # pylint: disable=broad-except
+                ctx.fail("raises", dict(full, probe="y ~ (1 | k)"), f"'y ~ (1 | k)' raised {type(e).__name__}: {e}", core.exc_key(e))
+                continue
+            want = [str(v) for v in sorted(set(frame["k"].tolist()))]
+            if groups != want:
+                ctx.fail("level_order", dict(full, probe="y ~ (1 | k)"), f"'y ~ (1 | k)': groups {groups}, expected {want}", "order")
+            continue
         try:
             with core.Guard():
                 d0 = design_matrices(f"y ~ 0 + {a}", frame)
@@ -146,6 +159,27 @@ def replay(ctx, case):
 def _worker(ctx, arg):
     shard, n = arg
     core.run_hypothesis(ctx, case_strategy(), judge, n, shard=shard)
+    if shard < 6:
+        many_groups(ctx, shard)
+
+
+def many_groups(ctx, k):
+    """A grouping factor with many levels (70-140) and effects of two or three columns per group: block positions are
+    computed from level codes, and small integer types are not wide enough for codes times columns."""
+    ng = [70, 100, 127, 128, 140, 90][k]
+    n = ng * 2
+    order = sorted(range(n), key=lambda i: ((i + 1) * 0.6180339887) % 1.0)
+    g = ["g%03d" % (i % ng) for i in order]
+    spec = {"cols": [{"name": "g", "kind": ["str", "cat"][k % 2], "values": g, **({"categories": sorted(set(g)), "ordered": False} if k % 2 else {})},
+                     {"name": "f", "kind": "str", "values": [["b", "a"][(i // 3) % 2] for i in range(n)]},
+                     {"name": "h", "kind": "str", "values": [["lo", "mid", "hi"][(i // 2) % 3] for i in range(n)]},
+                     {"name": "k", "kind": "int", "values": [frames.INT_LEVELS[i % 3] for i in range(n)]},
+                     {"name": "x", "kind": "float", "values": [round(float(v), 6) for v in frames.weyl(n, 0, k)]},
+                     {"name": "z", "kind": "float", "values": [round(float(v), 6) for v in frames.weyl(n, 1, k)]},
+                     {"name": "y", "kind": "float", "values": [round(float(v), 6) for v in frames.weyl(n, 5, k)]}], "index": None}
+    for e in (("var", "f"), ("var", "h"), (":", ("var", "f"), ("var", "x")), ("+", ("var", "x"), ("var", "h"))):
+        for lead in ("0", None):
+            judge(ctx, {"items": [["+", designs._listify(("grp", lead, e, ("var", "g")))]], "response": "y", "frame": spec})
 
 
 def run(ctx):
